@@ -237,7 +237,7 @@ def check_impl(sg, kind, x0, x, off, expandPosition, GeneratorSite):
     if mult2 != mult or any(pdist(p, q) > 1e-12 for p, q in zip(pos2, first)):
         return "a second expansion after the caller edited the first result in place gives %r, the first gave %r" % (
             [list(map(float, p)) for p in pos2][:3], first[:3]), None
-    if _PURITY[0] % 4 == 0:
+    if _PURITY[0] % 4 == 0 or _FORCE[0]:
         g1 = GeneratorSite(sg, numpy.array([float(v) for v in x]), sgoffset=of, eps=1.0e-5)
         e1 = [list(map(float, p)) for p in g1.eqxyz]
         x1 = list(map(float, g1.xyz))
@@ -248,7 +248,7 @@ def check_impl(sg, kind, x0, x, off, expandPosition, GeneratorSite):
         if len(g2.eqxyz) != len(e1) or any(pdist(p, q) > 1e-12 for p, q in zip(g2.eqxyz, e1)) or pdist(g2.xyz, x1) > 1e-12:
             return "a second GeneratorSite of the same site, built after the caller edited eqxyz/xyz of the first in place, has eqxyz %r; the first had %r" % (
                 [list(map(float, p)) for p in g2.eqxyz][:3], e1[:3]), None
-    if _PURITY[0] % 6 == 1 and kind in ("exact", "shift", "offset", "offset+shift"):
+    if (_PURITY[0] % 6 == 1 or _FORCE[0]) and kind in ("exact", "shift", "offset", "offset+shift"):
         # an asymmetric unit that lists the site, another member of its orbit and a cell-shifted copy: every listed site is
         # expanded on its own - its orbit, with the listed site itself first
         from diffpy.structure.symmetryutilities import ExpandAsymmetricUnit
@@ -272,6 +272,7 @@ def check_impl(sg, kind, x0, x, off, expandPosition, GeneratorSite):
 
 
 _PURITY = [0]
+_FORCE = [False]     # the replay runs every optional part of the oracle
 
 
 def source_tie_sym(ck):
@@ -420,6 +421,7 @@ def run(ck):
 
 def replay(path):
     common.use_repo()
+    _FORCE[0] = True
     r = json.load(open(path))
     import diffpy.structure.spacegroups as sgs
     from diffpy.structure.symmetryutilities import GeneratorSite, expandPosition
